@@ -148,3 +148,169 @@ def fp_lemma(ctx):
                   desc=f"float kernel int(v/{d}%64) equals integer (v//{d})%64 for all v < 2^23")
     ctx.witness("reach", None, z3.BoolVal(True))
     ctx.bound("lemma range v < 2^23 = 8 388 608 ms (covers the 7 000 000 ms of L1-L3)" + ("" if uses_float_div else "; current source uses no float division (lemma kept for regression)"))
+
+
+# ------------------------------------------------------------------------------------------------ router level
+from .. import emit as E
+from .. import symgn as G
+from .. import wire as W
+from ..gnharness import Harness, all_vars, build_real, eval_term
+from ..interp import TRUE, FALSE
+from flexstack.geonet.router import Router
+from flexstack.geonet.service_access_point import HeaderType, GeoBroadcastHST, GeoAnycastHST, TopoBroadcastHST
+
+
+def _hop_queries(ctx, tag, h, ex, lt_ms, want_rhl, want_mhl, real_call, extra=()):
+    """originated packet: RHL (basic header octet 3), MHL (common header octet 6) and lifetime"""
+    I = h.I
+    vars_ = all_vars(h, *extra)
+    bad = []
+    for c, pkt in h.sent:
+        pkt = I.sbytes(pkt)
+        if len(pkt.bs) < 12:
+            bad.append(c)
+            continue
+        rhl, mhl, lt = pkt.bs[3], pkt.bs[10], pkt.bs[2]
+        mult = z3.ZeroExt(26, z3.Extract(7, 2, lt))
+        base = z3.Extract(1, 0, lt)
+        ms = z3.If(base == 0, mult * 50, z3.If(base == 1, mult * 1000, z3.If(base == 2, mult * 10000, mult * 100000)))
+        bad.append(z3.And(c, z3.Or(rhl != z3.Extract(7, 0, I.num(want_rhl)), mhl != z3.Extract(7, 0, I.num(want_mhl)),
+                                   ms != z3.BitVecVal(lt_ms, 32))))
+
+    def replay(vals):
+        R, ll, got, patches = build_real(h, vals)
+        with patches:
+            try:
+                real_call(R, vals)
+            except Exception as e:
+                return True, f"{tag}: raised {type(e).__name__}: {e}"
+        wr, wm = eval_term(I.num(want_rhl), vals), eval_term(I.num(want_mhl), vals)
+        for p in ll.sent:
+            code = p[2]
+            ms = (code >> 2) * BASE_MS[code & 3]
+            if p[3] != wr or p[10] != wm or ms != lt_ms:
+                return True, f"{tag}: emitted RHL={p[3]} MHL={p[10]} lifetime={ms} ms; required RHL={wr} MHL={wm} lifetime={lt_ms} ms"
+        return False, f"{tag}: {len(ll.sent)} packet(s), hop limits and lifetime as required"
+    ctx.witness(f"{tag}-reach", I, z3.And(h.any_send(), z3.Not(h.exc())), vars=vars_, validate=lambda vals: not replay(vals)[0] or True)
+    ctx.prove(f"{tag}-hop-limits-and-lifetime", I, z3.Or(*bad) if bad else FALSE, vars=vars_, replay=replay,
+              desc=f"{tag}: RHL/MHL of the originated packet follow the hop-limit rule and LT is the quantised request/default")
+
+
+@vc("C20", "L7-origin-shb-beacon")
+def l7_shb(ctx):
+    for lt in ([None, 0.75] if ctx.tier == "quick" else E.LIFETIMES):
+        h, req, conf, ex, lt_ms = E.case_shb(3, lt)
+        _hop_queries(ctx, f"SHB[lt={lt}]", h, ex, lt_ms, 1, 1, lambda R, vals, req=req: R.gn_data_request_shb(G.concretize(req, vals)), (req,))
+    h, ex, lt_ms = E.case_beacon()
+    _hop_queries(ctx, "BEACON", h, ex, lt_ms, 1, 1, lambda R, vals: R.gn_data_request_beacon())
+    ctx.bound("SHB / beacon: requested hop limit 0..255 symbolic (must be ignored), lifetime menu, all other fields symbolic")
+
+
+@vc("C20", "L7-origin-gbc-gac")
+def l7_gbc(ctx):
+    cases = [(HeaderType.GEOBROADCAST, GeoBroadcastHST.GEOBROADCAST_CIRCLE), (HeaderType.GEOANYCAST, GeoAnycastHST.GEOANYCAST_RECT)]
+    if ctx.tier == "thorough":
+        cases = [(HeaderType.GEOBROADCAST, x) for x in GeoBroadcastHST] + [(HeaderType.GEOANYCAST, x) for x in GeoAnycastHST]
+    for ht, hst in cases:
+        for lt in ([None, 3.2] if ctx.tier == "quick" else E.LIFETIMES):
+            h, req, conf, ex, lt_ms, info = E.case_gbc(ht, hst, 3, lt)
+            meth = "gn_data_request_gbc" if ht == HeaderType.GEOBROADCAST else "gn_data_request_gac"
+            _hop_queries(ctx, f"{hst.name}[lt={lt}]", h, ex, lt_ms, info["hop"], info["hop"],
+                         lambda R, vals, req=req, meth=meth: getattr(R, meth)(G.concretize(req, vals)), (req,))
+    ctx.bound("GBC/GAC: requested hop limit 0..255 and itsGnDefaultHopLimit 1..255 symbolic")
+
+
+@vc("C20", "L7-origin-guc-ls")
+def l7_guc(ctx):
+    for lt in ([None, 63.0] if ctx.tier == "quick" else E.LIFETIMES):
+        h, req, conf, ex, lt_ms, info = E.case_guc(3, lt)
+        _hop_queries(ctx, f"GUC[lt={lt}]", h, ex, lt_ms, info["hop"], info["hop"],
+                     lambda R, vals, req=req: R.gn_data_request_guc(G.concretize(req, vals)), (req,))
+    h, ex, lt_ms, info = E.case_ls_request()
+    _hop_queries(ctx, "LSREQ", h, ex, lt_ms, info["dflt"], info["dflt"],
+                 lambda R, vals, info=info: R._send_ls_request_packet(G.concretize(info["sought"], vals)), (info["sought"],))
+
+
+def _rx_harness(L):
+    h = Harness(8 * 24 + 128 + 64, geom="free", greedy="free", area_size="free", ego="sym")
+    h.add_entry("e1")
+    pkt = G.sym_bytes("f", L)
+    h.I.assumptions.append(pkt.bs[0] == 0x11)          # version 1, NH = common header
+    h.call(Router.gn_data_indicate, pkt)
+    return h, pkt
+
+
+def _rx_replay(h, vals):
+    R, ll, got, patches = build_real(h, vals)
+    calls = []
+    lt = R.location_table
+    for name in ("new_shb_packet", "new_tsb_packet", "new_gbc_packet", "new_gac_packet", "new_guc_packet",
+                 "new_ls_request_packet", "new_ls_reply_packet"):
+        orig = getattr(lt, name)
+        setattr(lt, name, lambda *a, _o=orig, _n=name, **k: (calls.append(_n), _o(*a, **k))[1])
+    err = None
+    with patches:
+        try:
+            R.gn_data_indicate(vals["frame"])
+        except Exception as e:
+            err = e
+    return R, ll, got, calls, err
+
+
+@vc("C20", "L8-rhl-above-mhl-discarded")
+def l8(ctx):
+    """a received packet whose RHL exceeds its MHL produces no indication, no transmission and no table update"""
+    for L in ((36, 40, 64) if ctx.tier == "quick" else (12, 36, 40, 48, 56, 60, 64, 80)):
+        h, pkt = _rx_harness(L)
+        I = h.I
+        over = z3.UGT(pkt.bs[3], pkt.bs[10])
+        table = [c for c, n, a in h.table_calls if n.startswith("new_")]
+        effect = z3.Or(h.any_indication(), h.any_send(), *table) if table else z3.Or(h.any_indication(), h.any_send())
+        vars_ = all_vars(h)
+        vars_["frame"] = pkt
+
+        def replay(vals, h=h):
+            R, ll, got, calls, err = _rx_replay(h, vals)
+            f = vals["frame"]
+            return f[3] > f[10] and bool(got or ll.sent or calls), f"frame RHL={f[3]} MHL={f[10]} {f.hex()}: indications={len(got)} sent={len(ll.sent)} table updates={calls} error={err!r}"
+        ctx.witness(f"L{L}-reach-delivery", I, z3.And(z3.Not(over), h.any_indication()) if h.indications else z3.Not(over), vars=vars_)
+        ctx.prove(f"L{L}-no-effect-when-RHL>MHL", I, z3.And(over, effect), vars=vars_, replay=replay,
+                  desc="RHL > MHL: nothing is delivered, forwarded or entered into the location table, for every header type")
+    ctx.bound("frames of the listed lengths, all octets symbolic except octet 0 (version 1 / NH common); security disabled")
+
+
+@vc("C20", "L6-remaining-lifetime-reported")
+def l6(ctx):
+    """the remaining lifetime handed to the upper layer never exceeds the lifetime field of the received packet"""
+    for L in ((40, 64) if ctx.tier == "quick" else (40, 48, 56, 60, 64, 80)):
+        h, pkt = _rx_harness(L)
+        I = h.I
+        lt = pkt.bs[2]
+        mult = z3.ZeroExt(26, z3.Extract(7, 2, lt))
+        base = z3.Extract(1, 0, lt)
+        ms = z3.If(base == 0, mult * 50, z3.If(base == 1, mult * 1000, z3.If(base == 2, mult * 10000, mult * 100000)))
+        bad, rhl_bad = [], []
+        for c, ind in h.indications:
+            rem = ind.fields["remaining_packet_lifetime"]
+            sec = I._int_view(rem)           # the code reports float(<int seconds>): compare in the integer sort
+            if sec is None:
+                bad.append(z3.And(c, I.to_float(rem) * 1000 > z3.ToReal(z3.BV2Int(ms))))
+            else:
+                sec = I.num(sec)
+                bad.append(z3.And(c, z3.Or(sec < 0, sec * 1000 > z3.ZeroExt(I.W - 32, ms))))
+            r = ind.fields["remaining_hop_limit"]
+            rhl_bad.append(z3.And(c, I.num(r) != z3.ZeroExt(I.W - 8, pkt.bs[3])))
+        vars_ = all_vars(h)
+        vars_["frame"] = pkt
+
+        def replay(vals, h=h):
+            R, ll, got, calls, err = _rx_replay(h, vals)
+            f = vals["frame"]
+            wire = (f[2] >> 2) * BASE_MS[f[2] & 3] / 1000.0
+            for g in got:
+                if g.remaining_packet_lifetime > wire or g.remaining_hop_limit != f[3]:
+                    return True, f"frame {f.hex()}: lifetime field = {wire} s, RHL field = {f[3]}; indication reports remaining lifetime {g.remaining_packet_lifetime} s, hop limit {g.remaining_hop_limit}"
+            return False, f"{len(got)} indication(s) consistent"
+        ctx.witness(f"L{L}-reach-indication", I, h.any_indication(), vars=vars_)
+        ctx.prove(f"L{L}-remaining-lifetime<=wire", I, z3.Or(*bad) if bad else FALSE, vars=vars_, replay=replay)
+        ctx.prove(f"L{L}-remaining-hop-limit=wire", I, z3.Or(*rhl_bad) if rhl_bad else FALSE, vars=vars_, replay=replay)
